@@ -1273,8 +1273,13 @@ func (H) Run(t *testing.T, c *hx.Case) *hx.Outcome {
 					r.compareWallet(when)
 				}
 			case "defragmem":
-				if moved := r.n.DefragMem(); moved > 0 {
-					r.out.Probe("allocator_defrag_moved_utxo_records", int64(moved))
+				var moved, movedNode int
+				simrt.Quiet(func() { moved, movedNode = r.n.DefragMem(hx.NewRng(uint64(o.ID) ^ cfg.SchedSeed)) })
+				if moved > 0 {
+					r.out.Probe("allocator_defrag_moved_allocations", int64(moved))
+				}
+				if movedNode > 0 {
+					r.out.Probe("allocator_defrag_moved_utxo_records", int64(movedNode))
 				}
 				r.out.Probe("allocator_defrag", 1)
 				r.compareUTXO(when)
